@@ -54,14 +54,13 @@ def run_unphase(vcf_path, outfile):
             for tag in TAGS_TO_REMOVE:
                 if tag in record.format:
                     del record.format[tag]
-            for call in record.samples.values():
-                if (
-                    call["GT"] is not None
-                    and call["GT"][0] is not None
-                    and call["GT"][1] is not None
-                ):
-                    call["GT"] = sorted(call["GT"])
-                call.phased = False
+            if "GT" in record.format:
+                for call in record.samples.values():
+                    if call["GT"] is not None and all(
+                        allele is not None for allele in call["GT"]
+                    ):
+                        call["GT"] = sorted(call["GT"])
+                    call.phased = False
             writer.write(record)
 
 
